@@ -330,6 +330,7 @@ def _val(t, bits, signed):
     return v
 
 
+_BITSY_OPS = ('bits', 'b2i', 'm8', 'm16', 'm32', 'm64')
 ICOMMUT = {'add', 'mul', 'and', 'or', 'xor', 'eq', 'ne', 'min', 'max'}
 
 
@@ -346,6 +347,8 @@ def bits_of(t, n):
         return [TRUE if (v >> i) & 1 else FALSE for i in range(n)]
     if t.op == 'b2i':
         return [t.args[0]] + [FALSE] * (n - 1)
+    if t.op in ('m8', 'm16', 'm32', 'm64'):
+        return [t.args[0]] * n
     return None
 
 
@@ -414,7 +417,7 @@ def iop(op, ty, a, b):
     # bit-level reasoning (movemask & 7, == 7, != 0, >> k)
     if op in ('and', 'or', 'xor', 'eq', 'ne', 'shr', 'shl'):
         ba, bb = bits_of(a, bits), bits_of(b, bits)
-        if ba is not None and bb is not None and (a.op in ('bits', 'b2i') or b.op in ('bits', 'b2i')):
+        if ba is not None and bb is not None and (a.op in _BITSY_OPS or b.op in _BITSY_OPS):
             if op == 'and':
                 return mk_bits([b_and(x, y) for x, y in zip(ba, bb)])
             if op == 'or':
